@@ -52,7 +52,7 @@ pub fn define(
                         decls,
                         defs,
                         expr)?
-                    .expect_usize(report, expr.span())?,
+                    .expect_nonzero_usize(report, expr.span())?,
             };
             
             let label_align = match &node.label_align
